@@ -1,27 +1,85 @@
 from vlib import Job
 
-META = dict(bounds='', outside='', assumptions=[])
+META = dict(
+    bounds='message shapes declared with PROCESS_FIELDS: M1 {int32; buffer; string}, M2 {nested Message {uint32; buffer}; array<uint16>; aligned_buffer}, '
+           'M3 = CheckedMessage<> {uint32; string}, M4 {fixed_buffer<uint32>; iovec_array}, M5 {sorted_map<string, V{uint64}>} with one index entry, M6 {buffer}. '
+           'Round trip: every field length 0..2 bytes/elements (symbolic contents), serialized by the real SerializerIOV, the byte stream re-cut at symbolic points into '
+           'NPF+1 iovec elements (NPF = 0, 1, 2; zero-length elements included), every piece end-aligned in its own object, deserialized by the real DeserializerIOV. '
+           'Hostile: all sizeof(T) body bytes arbitrary (64-bit lengths and pointer bits), payload of 0..PMAX arbitrary bytes (PMAX 4 quick / 6 thorough), same fragmentations; '
+           'body contiguous in the last element (FRAG 0, the payload tail may share that element) or cut strictly inside the body so that it is reassembled through the '
+           'allocator (FRAG 1). The allocator of the input vector is a harness callback returning exact-size blocks (optionally failing symbolically).',
+    outside='messages with more than 3 variable-length fields or longer payloads; more than 3 iovec elements; sorted maps with more than one entry, sorted_map::find '
+            '(a solver counterexample that does not reproduce natively was left unresolved) and sorted_map_factory (std::vector / unique_ptr); aligned_iovec_array; '
+            'the CRC32C polynomial itself (see assumptions); under-reads in front of a piece (pieces are end-aligned: an access past the end of a piece is out of bounds for the '
+            'solver, an access in front of its start is caught only by the explicit checks that every result field denotes exactly its bytes of the stream)',
+    assumptions=['crc32c_extend (function pointer crc32c_auto) is bound to a recording byte-sequential fold c -> rotl(c, 8) ^ byte ^ 0x5a instead of the CRC32C table code: '
+                 'the checks state which bytes are hashed, in which order, that calls are chained, and that validate accepts iff the stored value equals the final value',
+                 'IOAlloc::default_allocator / default_deallocator (malloc of a symbolic size) are stubs that assert they are never reached (rt/c12_stubs.c); the vector handed to '
+                 'deserialize carries the harness allocator',
+                 'the vector handed to deserialize is IOVectorEntity<NPF+1, 0> (same template as IOVector = IOVectorEntity<32, 4>); SerializerIOV and sorted_map::Iterator use the real IOVector',
+                 'M4 and M5 jobs are translated with --null-gep-ok: `p + i` with p == nullptr and i == 0 (array<T>::end() of an empty array) is defined in C++ and not reported',
+                 'logging macros have empty bodies; NDEBUG build: assert() compiled out (as shipped)'],
+)
 SRC = 'C12/h_ser.cpp'
 SH = ['libc.c', 'c12_stubs.c']
 STUB = ['--stub', '^@_ZN7IOAlloc17default_allocatorEPvNS_9RangeSizeEPS0_$', '--stub', '^@_ZN7IOAlloc19default_deallocatorEPvS0_$']
 SIZES = {1: 40, 2: 56, 3: 24, 4: 40, 5: 32, 6: 16}
+NAMES = {1: 'int_buffer_string', 2: 'nested_array_aligned', 3: 'checked', 4: 'fixedbuf_iovecarray', 5: 'sortedmap', 6: 'buffer'}
+FR = {(0, 0): 'one contiguous buffer', (0, 1): '2 elements, body contiguous', (0, 2): '3 elements, body contiguous', (1, 1): '2 elements, cut inside the body',
+      (1, 2): '3 elements, last cut inside the body'}
 
-def gen(msg, mode, frag, npf, pmax, fmax=2, extra=(), to=400, name=None, entry=None, un=None):
+def gen(msg, mode, frag, npf, pmax, fmax=2, extra=(), to=900, name=None, entry=None, un=None, nullgep=False, desc=None):
     sz = SIZES[msg]
     D = ['MSG=%d' % msg, 'FRAG=%d' % frag, 'NPF=%d' % npf, 'PMAX=%d' % pmax, 'FMAX=%d' % fmax] + list(extra)
     # every loop of the harness is fully unrolled at compile time; what reaches the solver are the library's loops over iovec
-    # elements (at most NPF+1 elements) and the byte loop that stands for memcpy with a symbolic length
-    us = ['verif_memcpy_n.0:%d' % ((sz if frag == 1 else pmax) + 1)]
-    return Job(name or 'm%d_%s_f%d_n%d' % (msg, mode, frag, npf), SRC, entry or 'harness_' + mode, defines=D, unwind=un or npf + 3, unwindset=us, shims=SH, ir2c=STUB, timeout=to)
+    # elements (at most NPF+1 elements), the byte loop that stands for memcpy with a symbolic length and the checksum recorder's byte loop
+    us = ['verif_memcpy_n.0:%d' % ((sz if frag == 1 else pmax) + 1), 'f__ZL7crc_recPKhmj.0:%d' % (pmax + 1)]
+    nm = name or 'm%d_%s_f%d_n%d' % (msg, mode, frag, npf)
+    return Job(nm, SRC, entry or 'harness_' + mode, defines=D, unwind=un or npf + 3, unwindset=us, shims=SH, ir2c=STUB + (['--null-gep-ok'] if nullgep else []), timeout=to,
+               desc=desc or '%s of %s, %s' % (mode, NAMES[msg], FR[(frag, npf)]), bounds='payload <= %d bytes, fields <= %d elements, %d iovec elements' % (pmax, fmax, npf + 1))
 
 def jobs(tier):
     q = tier == 'quick'
+    to = 900 if q else 6000
+    P = 4 if q else 6
     J = []
-    for msg in (1, 2, 3, 6):
+    frs = [(0, 0), (0, 2)] if q else [(0, 0), (0, 1), (0, 2)]
+    for msg in (1, 2, 3, 4, 6):
         for mode in ('hostile', 'roundtrip'):
-            for frag, npf in ((0, 0), (0, 2)):
-                J.append(gen(msg, mode, frag, npf, 4 if msg != 2 else 6))
-    for msg in (3, 6):
+            for frag, npf in frs:
+                pm = P
+                if msg == 4 and mode == 'roundtrip': pm = 6          # fixed buffer (4 bytes) + iovec elements
+                J.append(gen(msg, mode, frag, npf, pm, extra=['IOVEC_POOL'] if msg == 4 else [], nullgep=(msg == 4), to=to))
+    # body cut in the middle: reassembled through the allocator (copying path of extract_back_continuous), then validated / parsed in the copy
+    for msg in ((6, 3) if q else (6, 3, 1)):
         for mode in ('hostile', 'roundtrip'):
-            J.append(gen(msg, mode, 1, 1, 4))
+            if q and msg == 3 and mode == 'hostile': continue     # > 15 min
+            for npf in ((1,) if q else (1, 2)):
+                J.append(gen(msg, mode, 1, npf, P, to=to))
+    # a checked message with one payload byte altered after serialization
+    J.append(gen(3, 'roundtrip', 0, 2 if not q else 1, P, extra=['ALTER'], name='m3_altered_byte', to=to, desc='checked message, one payload byte altered: rejected'))
+    # allocator failures
+    J.append(gen(6, 'hostile', 1, 1, P, extra=['ALLOCFAIL=1'], name='m6_hostile_allocfail', to=to, desc='hostile bytes, allocator may fail: deserialize fails cleanly'))
+    J.append(gen(4, 'hostile', 0, 2, P, extra=['IOVEC_POOL', 'ALLOCFAIL=1', 'NO_SIZE_MAX'], nullgep=True, name='m4_hostile_allocfail_no_sizemax', to=to,
+                 desc='hostile bytes incl. iovec_array, allocator may fail, summed_size != SIZE_MAX'))
+    j = gen(4, 'hostile', 0, 2, P, extra=['IOVEC_POOL', 'ALLOCFAIL=1'], nullgep=True, name='hostile_iovecarray_allocfail', to=to,
+            desc='hostile bytes incl. iovec_array, allocator may fail (FAILS: summed_size == SIZE_MAX equals the -1 error code of extract_front and is accepted as an empty array)')
+    j.kf = 'C12-iovecarray-allocfail'; J.append(j)
+    # accessors of zero-length / short fields (beyond [ptr, ptr+len): what the library's own getters return for an accepted hostile message)
+    j = gen(1, 'hostile', 0, 0, P, extra=['ACCESSORS'], name='hostile_string_sv_accessor', to=to,
+            desc='string::sv() of an accepted hostile message (FAILS: a string of length 0 keeps the sender\'s pointer bits and sv() has length SIZE_MAX)')
+    j.kf = 'C12-zero-length-accessors'; J.append(j)
+    j = gen(4, 'hostile', 0, 0, P, extra=['IOVEC_POOL', 'ACCESSORS'], nullgep=True, name='hostile_fixedbuf_get_accessor', to=to,
+            desc='*fixed_buffer<T>::get() of an accepted hostile message (FAILS: the length is not checked against sizeof(T); length 0 keeps the sender\'s pointer bits)')
+    j.kf = 'C12-zero-length-accessors'; J.append(j)
+    # sorted_map
+    SM = ['BLEN=10']
+    J.append(gen(5, 'sortedmap', 0, 0, 42, extra=SM + ['SM_MODE=1'], name='sortedmap_wellformed', un=14, nullgep=True, to=to,
+                 desc='received sorted_map whose index entry lies inside the base buffer: begin/end/operator-> return the denoted key and value'))
+    J.append(gen(5, 'sortedmap', 0, 0, 42, extra=SM + ['SM_MODE=2'], name='sortedmap_roundtrip', un=14, nullgep=True, to=to,
+                 desc='one-entry sorted_map laid out like sorted_map_factory, serialized, deserialized, read back'))
+    j = gen(5, 'sortedmap', 0, 0, 42, extra=SM + ['SM_MODE=0'], name='hostile_sortedmap', un=14, nullgep=True, to=to,
+            desc='received sorted_map with an arbitrary index entry: the library accessors must stay inside the supplied bytes (FAILS: slice::anchor only assert()s its bounds)')
+    j.kf = 'C12-sortedmap-anchor'
+    J.append(j)
     return J
